@@ -36,7 +36,7 @@ def html_entities_reordered(rw):
     s = t.index("var EntitiesMap = map[string][]byte{\n") + len("var EntitiesMap = map[string][]byte{\n")
     e = t.index("\n}\n", s) + 1
     rows = t[s:e].splitlines(keepends=True)
-    assert len(rows) > 2000
+    assert len(rows) > 1000
     rw.write("html/table.go", t[:s] + "".join(reversed(rows)) + t[e:])
     rw.gofmt("html/table.go")
 
